@@ -4,7 +4,7 @@ import zlib
 
 from vf import edits
 from vf.ref import bech32_ref as B
-from vf.runner import Acc, filler
+from vf.runner import Acc, filler, as_tuple
 
 PROPERTY = "C06"
 # E6: seq_ops() indices of the operations that are interrupted at every line (vf/seqexplore.interrupted); probes = the whole alphabet
@@ -63,7 +63,7 @@ def chk_rt(case):
         out.append(("C06/encode/too-long", f"{exp} is {len(exp)} characters"))
     for addr in (exp, exp.upper()):
         d = call(bits.decode_segwit_addr, addr)
-        if d[0] != "ok" or tuple(d[1]) != (hrp.encode(), v, prog):
+        if d[0] != "ok" or as_tuple(d[1]) != (hrp.encode(), v, prog):
             z = "allzero" if not any(prog) else "other"
             out.append((f"C06/decode/valid-rejected/{cls}/{z}", f"decode_segwit_addr({addr}) = {d}"))
             continue
@@ -92,6 +92,10 @@ def chk_str(case):
         out.append((f"C06/accept-set/is_segwit_addr/{why}", f"is_segwit_addr({s!r}) = {r[1]}, BIP173/350 says {ref is not None} ({case.get('what', '')})"))
     d = call(bits.decode_segwit_addr, s)
     ok = d[0] == "ok"
+    if ok and not (isinstance(d[1], (list, tuple)) and len(d[1]) == 3):
+        # returned normally, but not an (hrp, version, program) triple (e.g. None out of a torn memo): that is neither an accept nor a reject
+        out.append(("C06/decode/wrong-fields", f"decode_segwit_addr({s!r}) returned {d[1]!r:.80}, not an (hrp, version, program) triple ({case.get('what', '')})"))
+        return out
     if ok:
         a = call(bits.assert_valid_segwit, *d[1])
         ok = a[0] == "ok"
@@ -99,7 +103,7 @@ def chk_str(case):
         why = "invalid-accepted" if ok else "valid-rejected"
         out.append((f"C06/accept-set/decode+assert/{why}", f"decode_segwit_addr+assert_valid_segwit({s!r}) {'passes' if ok else 'fails: ' + str(d if d[0] != 'ok' else a)[:80]}, "
                     f"BIP173/350 says {ref is not None} ({case.get('what', '')})"))
-    elif ok and tuple(d[1]) != (ref[0].encode(), ref[1], ref[2]):
+    elif ok and as_tuple(d[1]) != (ref[0].encode(), ref[1], ref[2]):
         out.append(("C06/decode/wrong-fields", f"decode_segwit_addr({s!r}) = {d[1]}, reference {ref}"))
     for fn in (bits.is_addr, bits.base58.is_base58check):
         r = call(fn, s)
